@@ -35,7 +35,7 @@ ASSUMPTIONS = ['shim fidelity as for C04', 'ParMapDataset source faults: prefix 
                'no BaseException into multiprocessing/pathos workers']
 SHARD_TIMEOUT = {'quick': 600, 'thorough': 7000}
 LIMITS = {
-    'quick': dict(dfs_n=2, dfs_b=2, dfs_bound=2, dfs_cap=300, rnd_n=4, rnd_b=3, rnd_w=2,
+    'quick': dict(dfs_n=2, dfs_b=2, dfs_bound=2, dfs_cap=200, rnd_n=4, rnd_b=3, rnd_w=2,
                   rnd_runs=8, real_runs=300, proc_cases=1),
     'thorough': dict(dfs_n=3, dfs_b=2, dfs_bound=3, dfs_cap=5000, rnd_n=5, rnd_b=4,
                      rnd_w=3, rnd_runs=60, real_runs=3000, proc_cases=3),
@@ -105,13 +105,13 @@ def scenarios(nmax, bmax, wmax):
 def shards(tier, seed):
     lim = LIMITS[tier]
     out = []
+    for j in range(2):
+        out.append({'name': f'real{j}', 'what': 'real', 'mod': 2, 'rem': j, **lim})
+    for j in range(3):
+        out.append({'name': f'rnd{j}', 'what': 'rnd', 'mod': 3, 'rem': j, **lim})
     J = 9
     for j in range(J):
         out.append({'name': f'dfs{j}', 'what': 'dfs', 'mod': J, 'rem': j, **lim})
-    for j in range(3):
-        out.append({'name': f'rnd{j}', 'what': 'rnd', 'mod': 3, 'rem': j, **lim})
-    for j in range(2):
-        out.append({'name': f'real{j}', 'what': 'real', 'mod': 2, 'rem': j, **lim})
     from ..procpool import BACKENDS
     for be in BACKENDS:
         out.append({'name': f'proc-{be}', 'what': 'proc', 'backend': be, **lim})
